@@ -130,6 +130,21 @@ func runSequence(t *rapid.T, backend vkit.Backend) {
 					overwritten[k] = true
 				}
 				model[k] = proto.Clone(msg)
+				// the caller goes on using ITS message object: what is stored is the value at
+				// the time of the store
+				if rapid.Bool().Draw(t, "callerChangesItsMessageAfterTheStore") {
+					switch m := msg.(type) {
+					case *types.NodeCredentials:
+						m.WrappingKeyId, m.RegistrationNonce = "changed-after-store", nil
+					case *types.NodeInformation:
+						m.NodeId, m.State = "changed-after-store", nil
+					case *types.RootCertificates:
+						m.WrappingKeyId, m.Next = "changed-after-store", nil
+					case *types.ServerLedActivationToken:
+						m.WrappingKeyId = "changed-after-store"
+					}
+					flags["message-changed-after-store"] = true
+				}
 				if typesOfID[id] == nil {
 					typesOfID[id] = map[string]bool{}
 				}
